@@ -18,9 +18,6 @@ ASSUMPTIONS = [
     "model/implementation agreement outside the enumerated and sampled inputs is assumed",
     "theorems assume permutations as underlying patterns; malformed arguments are only correspondence-checked",
     "negative indices passed to sub_mesh_pattern (Python wrap-around indexing) are outside the model",
-    "subMesh_shading_iff / meshInMesh_complete exclude the one input of the known finding "
-    "C06-empty-submesh-of-shaded-empty-pattern (no point chosen from the empty pattern whose only cell is shaded); "
-    "theorem subMesh_empty_gap states the discrepancy",
     "MeshPatt.occurrences_in(Perm) treats the Perm as a permutation (C03), not as an unshaded pattern; the "
     "classical-pattern cases of C06 are Perm.occurrences_in(MeshPatt) and occurrences in MeshPatt(perm) with no shading",
 ]
@@ -195,7 +192,8 @@ def run(ctx):
         "submesh 3,2,1,0 0.3,1.2,1.3,3.2,4.2,4.3 0,1,3", "submesh 2,3,1,0 0.3,1.2,1.3,3.2,4.2,4.3 1,2,3",
         "meshin 1,0,2 1.2,2.2,2.3 3,1,0,2,4 0.0,0.1,0.2,1.4,2.4,3.3,3.4,3.5,4.0,4.3,4.4,4.5,5.0",
         "meshinS 1,0,2 1.2,2.2,2.3 3,1,0,2,4 0.0,0.1,0.2,1.4,2.4,3.3,3.4,3.5,4.0,4.3,4.4,4.5,5.0",
-        "meshin 0 0.0 0 0.1", "meshin 0 _ 0 0.1", "meshin _ _ _ _", "meshin _ _ 0,1 1.1", "meshin 0 _ _ _",
+        "meshin 0 0.0 0 0.1", "submesh _ 0.0 _", "submeshS _ 0.0 _", "meshin _ 0.0 _ 0.0", "meshinS _ 0.0 _ 0.0",
+        "meshinS6 _ 0.0 _ 0.0", "mmcontains _ 0.0 m:_/0.0", "mmavoids _ 0.0 m:_/0.0", "submesh 0,1 0.0 _", "submesh _ _ _", "meshin 0 _ 0 0.1", "meshin _ _ _ _", "meshin _ _ 0,1 1.1", "meshin 0 _ _ _",
         "meshin 0 0.0,0.1,1.0,1.1 0 0.0,0.1,1.0,1.1", "meshinS6 0 0.0,0.1 0,1 0.0,0.1,0.2,1.0,1.1,1.2",
         "submesh 0,1 0.0,0.1,0.2,1.0,1.1,1.2,2.0,2.1,2.2 _", "submesh _ _ _", "submesh 0 0.0,0.1,1.0,1.1 0",
         "submeshS 0,1 0.0,0.1,0.2,1.0,1.1,1.2 1", "submesh 0,1,2 1.1,1.2,2.1,2.2 0,2", "submeshS 0,1,2 1.1,1.2,2.1,2.2 0,2",
